@@ -306,6 +306,15 @@ func c16Scenario(depth, k, p int) mc.Scenario {
 						derive(s.Omit(map[string]bool{"b": true, "c": false}), nm)
 					}})
 				}
+				// operations that remove / select / add nothing: still a new, independent schema
+				ops = append(ops, op{"Omit()", func() { derive(s.Omit(), m.clone()) }})
+				ops = append(ops, op{"Omit(zz)", func() { derive(s.Omit("zz"), m.clone()) }})
+				ops = append(ops, op{"Omit(map{a:false,zz:true})", func() { derive(s.Omit(map[string]bool{"a": false, "zz": true}), m.clone()) }})
+				ops = append(ops, op{"Extend({})", func() { derive(s.Extend(z.Schema{}), m.clone()) }})
+				if hasA && hasB && hasC && len(m.fields) == 3 {
+					ops = append(ops, op{"Pick(a,b,c)", func() { derive(s.Pick("a", "b", "c"), m.clone()) }})
+				}
+				ops = append(ops, op{"Merge(fresh Struct{})", func() { derive(s.Merge(z.Struct(z.Schema{})), m.clone()) }})
 				ops = append(ops, op{"Extend({d})", func() {
 					nm := m.clone()
 					nm.fields["d"] = "d"
